@@ -358,7 +358,23 @@ fn yamlish_node(u: &mut Src, out: &mut Vec<u8>, indent: usize, depth: usize, nl:
 
 /// G-yaml stream (valid by construction). TODO(after merge of gen/yaml.rs): use it here.
 fn gen_gyaml(u: &mut Src) -> Vec<u8> {
-    gen_yamlish(u)
+    use crate::gen::yaml as gy;
+    // every presentation device on, no finding shape avoided: C16 is differential, so
+    // loader defects show identically in every configuration
+    let mut o = gy::YOpts::full();
+    o.max_nodes = 40;
+    let s = gy::gen_stream(u, &o);
+    let mut t = gy::render(&s, u, &o).text;
+    // alignment prefix: shifts every later offset across 16/32-byte boundaries
+    if u.bool() {
+        let n = u.range(0, 63);
+        let mut p = vec![b'#'];
+        p.extend(std::iter::repeat(b'x').take(n));
+        p.push(b'\n');
+        p.extend_from_slice(&t);
+        t = p;
+    }
+    t
 }
 
 pub fn mutate(u: &mut Src, t: &mut Vec<u8>) {
